@@ -153,8 +153,9 @@ def sensitivity(ids, names=None):
                      "kinds": kinds[:3], "wall_s": round(time.time() - t0, 1), "rc": p.returncode})
         core.out(f"[sensitivity] {m['property']} {m['name']:<44} {'DETECTED' if detected else 'missed  '} rc={p.returncode} "
                  f"{time.time() - t0:5.0f}s {kinds[:2]} {'' if ok else '<-- UNEXPECTED'}")
-    with open(os.path.join(core.VERIF, "selftest", "sensitivity_last.json"), "w") as f:
-        json.dump(rows, f, indent=1)
+    if not names:          # a partial run (named mutants) does not replace the record of the last full one
+        with open(os.path.join(core.VERIF, "selftest", "sensitivity_last.json"), "w") as f:
+            json.dump(rows, f, indent=1)
     core.out(f"[sensitivity] {len(rows)} mutants, {missed} unexpected outcomes")
     return 0 if not missed else 2
 
